@@ -260,6 +260,58 @@ def spec_oracle(ctx, ops, impl, model_json_lines):
     ctx.corr["spec_oracle_checked"] = checked
 
 
+ADMIN = {b"/topic/create", b"/topic/delete", b"/topic/empty", b"/topic/pause", b"/topic/unpause",
+         b"/channel/create", b"/channel/delete", b"/channel/empty", b"/channel/pause", b"/channel/unpause"}
+
+
+def admin_fail(op, impl, prev_b):
+    """Frame oracle for the admin endpoints on the white-box snapshots before/after (no model):
+    nothing changes unless the answer is 200; topics other than the named one never change; a
+    channel endpoint (other than create) leaves the topic's own queue, counter and pause flag alone
+    and does not touch the topic's other channels."""
+    import urllib.parse
+    w = op.split()
+    if len(w) != 8 or w[0] != "http" or unhex(w[3]) not in ADMIN or w[2] != "POST":
+        return None
+    f = dict(x.split("=", 1) for x in impl.split() if "=" in x)
+    after = f.get("B", "-")
+    if f.get("H") != "200":
+        if after != prev_b:
+            return "admin-frame", "%s answered %s but the broker changed" % (unhex(w[3]).decode(), f.get("H"))
+        return None
+    try:
+        q = urllib.parse.parse_qs(unhex(w[4]).decode("latin1"), keep_blank_values=True, strict_parsing=False,
+                                  encoding="latin1")
+    except Exception:
+        return None
+    t = q.get("topic", [None])[0]
+    if t is None:
+        return None
+    tkey = t.encode("latin1").hex() or "-"
+
+    def entries(b):
+        return {} if b == "-" else {e.split(":", 1)[0]: e for e in b.split("/")}
+    eb, ea = entries(prev_b), entries(after)
+    for k in set(eb) | set(ea):
+        if k != tkey and eb.get(k) != ea.get(k):
+            return "admin-frame", "%s on topic %r changed topic %r" % (unhex(w[3]).decode(), t, bytes.fromhex(k))
+    path = unhex(w[3])
+    if path.startswith(b"/channel/") and path != b"/channel/create" and tkey in eb and tkey in ea:
+        c = q.get("channel", [None])[0]
+        fb, fa = eb[tkey].split(":"), ea[tkey].split(":")
+        if fb[1:4] != fa[1:4]:
+            return "admin-frame", "%s changed the topic's own state %s -> %s" % (path.decode(), fb[1:4], fa[1:4])
+        ckey = (c or "").encode("latin1").hex()
+
+        def chans(x):
+            return {} if x == "-" else {e.split(";", 1)[0]: e for e in x.split("+")}
+        cb, ca = chans(fb[4]), chans(fa[4])
+        for k in set(cb) | set(ca):
+            if k != ckey and cb.get(k) != ca.get(k):
+                return "admin-frame", "%s on channel %r changed channel %r" % (path.decode(), c, bytes.fromhex(k))
+    return None
+
+
 def harness_lines(ctx, out, label):
     hist = {}
     for l in out.splitlines():
@@ -284,13 +336,25 @@ def compare(ctx, name, ops, impl, model, corr_broken, props_for_io=True):
     """Diff + direct oracles over one ops/impl/model triple."""
     confs = parse_confs(ops)
     ndiff = 0
+    last_b = {}
     for i, o in enumerate(ops):
         a = impl[i] if i < len(impl) else "<missing>"
         b = model[i] if i < len(model) else "<missing>"
         w = o.split()
+        if w[0] == "reset":
+            last_b = {}
         if w[0] in ("io", "http"):
             ctx.count_case(o, nontrivial=("R=-" not in a))
             conf = confs.get(w[1])
+            prev_b = last_b.get(w[1], "-")
+            fa = dict(x.split("=", 1) for x in a.split() if "=" in x)
+            last_b[w[1]] = fa.get("B", "-")
+            if conf and w[0] == "http" and ctx.prop == "C10":
+                badf = admin_fail(o, a, prev_b)
+                if badf:
+                    ctx.violation(badf[0], badf[1] + " (conf %s)" % w[1],
+                                  "%s\n# broker before: %s\n%s\n# impl: %s\n# model: %s\n" % (
+                                      ops_conf_line(ops, w[1]), prev_b, o, a, b))
             if conf:
                 bad = limits_fail(a, conf)
                 if not bad and w[0] == "io" and ctx.prop == "C09":
@@ -378,7 +442,7 @@ def run(ctx):
                 os.remove(os.path.join(corpus, fn))
             with open(os.path.join(corpus, "00_replay.ops"), "w") as f:
                 f.write(open(ctx.replay_in).read())
-        N = 0 if ctx.replay_in else ctx.budget(4000, 60000)
+        N = 0 if ctx.replay_in else ctx.budget(10000, 100000)
         rc, out = ctx.run_cmd([binp, "-test.run", "^TestVerifE3Proto$", "-test.count=1", "-test.timeout=3000s"],
                               timeout=3200, env={"VERIF_SEED": ctx.seed, "VERIF_N": N, "VERIF_OUT": ctx.work,
                                                  "VERIF_REPO": REPO, "VERIF_CORPUS": corpus})
